@@ -210,7 +210,11 @@ def judge(ctx, meta, listing, path, cls, tclass, target, resp, via="L0", audit_e
     if physical is not None and via == "L0" and 20 <= status <= 29:
         ctx.count("monitor", "physical_resolutions_checked")
         served = [meta["tokens"][t]["abs"] for t in toks if t in meta["tokens"]]
-        if not os.path.lexists(physical):
+        if os.path.lexists(physical) and not inside(physical, root) and physical != root:
+            # (file contents are caught by their sentinels; this also covers listings and empty files)
+            verdict = "success-for-outside"
+            ctx.violation(f"success-for-path-outside-root:how={cls}", f"the path resolves to {physical}, outside the document root, yet the answer is {status}", dict(wit, resolves_to=physical))
+        elif not os.path.lexists(physical):
             verdict = "success-for-nothing"
             ctx.violation(f"success-for-path-that-leads-nowhere:how={cls}", f"the path resolves to {physical}, which does not exist, yet the answer is {status}", dict(wit, resolves_to=physical))
         elif served:
